@@ -1124,3 +1124,8 @@ TABLE["C07"] += [
       (TI + "classes.py", "        if original.template:\n            assert len(original.template.typenames) == len(\n                instantiations), \"Typenames and instantiations mismatch!\"",
        "        template = original.template\n        names = template.typenames if template else []\n        if template:\n            assert len(names) == len(\n                instantiations), \"Typenames and instantiations mismatch!\"")),
 ]
+_TT_COPY = (IP + "type.py", "        instantiations = [param.typename for param in template_params]\n",
+            "        import copy\n        instantiations = [copy.deepcopy(param.typename) for param in template_params]\n")
+TABLE["C02"] += [B("templated-type-copies-its-argument-typenames", {"S8"}, _TT_COPY)]
+TABLE["C04"] += [B("templated-type-copies-its-argument-typenames", {"B8"}, _TT_COPY)]
+TABLE["C09"] += [B("templated-type-copies-its-argument-typenames", {"W5"}, _TT_COPY)]
